@@ -3,6 +3,7 @@
 -/
 import HctlProofs.Props.C05
 import HctlProofs.Lemmas.LexRender
+import HctlProofs.Lemmas.LexValid
 namespace Hctl.C06
 open Hctl
 
@@ -53,14 +54,6 @@ theorem build_str (t : Tree) : t.build.str = t.render ∧ t.build.height = t.hei
   exact h
 
 /-! the parsing half of the round trip: the canonical token list of a tree parses back to the tree -/
-
-/-- identifiers for which printing is unambiguous: a proposition must not be spelled like a constant -/
-def PropNamesOK : Tree → Prop
-  | .atom (.prop n) => constOrProp n = .atom (.prop n)
-  | .atom _ => True
-  | .un _ c => PropNamesOK c
-  | .bin _ l r => PropNamesOK l ∧ PropNamesOK r
-  | .hyb _ _ _ c => PropNamesOK c
 
 theorem D_lift {ts t} (h : D .term ts t) : ∀ k : Lvl, D k ts t := by
   intro k
@@ -168,6 +161,22 @@ example : (Tree.un .not (.atom (.prop ['a']))).build.str = "(~a)".toList := by d
 example : (Tree.hyb .ex ['x'] (some ['d']) (.un .ag (.atom (.var ['x'])))).build.str
     = "(3{x} in %d%: (AG {x}))".toList := by decide
 
+/-- FULL STATEMENT, parser output: every tree the (plain or extended) tokenizer + parser produce from ANY text
+round-trips: printing it and parsing the text again (extended entry) yields an equal tree. -/
+theorem parsed_tree_roundtrip (K : CharClass) (hK : Lex.CharsOK K) (ext : Bool) (cs : List Char) (ts : List Tok) (t : Tree)
+    (hl : Lex.tokenize K ext cs = .ok ts) (hp : parseToks ts = .ok t) :
+    ∃ toks, Lex.tokenize K true t.render = .ok toks ∧ parseToks toks = .ok t := by
+  obtain ⟨h1, h2⟩ := parsed_treeOK hK ext cs ts t hl hp
+  exact print_parse_roundtrip K hK t h1 h2
+
+/-- FULL STATEMENT, preprocessing output: the tree after `validate_props_and_rename_vars` round-trips as well. -/
+theorem preprocessed_tree_roundtrip (K : CharClass) (hK : Lex.CharsOK K) (ext : Bool) (f : Name → Bool) (cs : List Char)
+    (ts : List Tok) (t t' : Tree) (hl : Lex.tokenize K ext cs = .ok ts) (hp : parseToks ts = .ok t)
+    (hr : rename f t = .ok t') :
+    ∃ toks, Lex.tokenize K true t'.render = .ok toks ∧ parseToks toks = .ok t' := by
+  obtain ⟨h1, h2⟩ := rename_treeOK hK f t t' (parsed_treeOK hK ext cs ts t hl hp) hr
+  exact print_parse_roundtrip K hK t' h1 h2
+
 /-! Non-vacuity of the round trip: a character class that satisfies `CharsOK`, and a tree that satisfies the premises. -/
 section
 open Lex
@@ -189,7 +198,7 @@ theorem asciiClass_ok : CharsOK asciiClass := by
   · decide
   · intro c hc
     simp only [List.mem_cons, List.not_mem_nil, or_false] at hc
-    rcases hc with rfl | rfl | rfl | rfl | rfl | rfl | rfl | rfl | rfl | rfl | rfl | rfl | rfl | rfl | rfl | rfl | rfl | rfl <;> decide
+    rcases hc with rfl | rfl | rfl | rfl | rfl | rfl | rfl | rfl | rfl | rfl | rfl | rfl | rfl | rfl | rfl | rfl | rfl | rfl | rfl <;> decide
 
 -- `(!{x} in %d%: (AX ({x} & (~EF_a))))` round-trips
 example : TreeOK asciiClass (.hyb .bind ['x'] (some ['d']) (.un .ax (.bin .and (.atom (.var ['x'])) (.un .not (.atom (.prop ['E','F','_','a']))))))
